@@ -6,6 +6,8 @@
 //	remove <esc-url>            -> ok | err notfound | err badurl
 //	servers                     -> servers <esc-url>,<w>,<esc scheme>|<esc host>|<esc path> ...   (Servers() order, ServerWeight)
 //	codec <spec>                -> ok            (StickySession.SetCookieValue)
+//	mint <spec> <esc-url>       -> minted v:<esc-token>|none <esc-url>,<key>   (a second, foreign StickySession of that
+//	                               codec, kept alive next to the scenario's own, runs StickBackend(url); the value goes into the jar)
 //	adv <ns>                    -> ok            (frozen clock, ns since hx.Base, never backwards)
 //	req cookie=none|@<k>|raw:<esc> [t=<tamper>]
 //	                            -> served <esc-url> set=v:<esc-token>|none
@@ -252,6 +254,8 @@ type h struct {
 	rr   *roundrobin.RoundRobin
 	srv  *httptest.Server
 	jar  []entry
+	// foreign sticky sessions by codec spec, alive for the whole scenario
+	foreign map[string]*roundrobin.StickySession
 }
 
 func (s *h) Close() {
@@ -383,8 +387,69 @@ func (s *h) do(cookieHdr *string) (served, rejected string, setCookie []string) 
 	return hd.Get("X-Served"), hd.Get("X-Rejected"), hd["Set-Cookie"]
 }
 
+// takeCookie reads the Set-Cookie lines a client received, stores the pair's value in the jar and returns its token.
+func (s *h) takeCookie(sc []string, sp *spec) (set string, errs string) {
+	if len(sc) > 1 {
+		return "", "err multiple-set-cookie"
+	}
+	if len(sc) == 0 {
+		return "none", ""
+	}
+	pair, _, _ := strings.Cut(sc[0], ";")
+	n, v, found := strings.Cut(pair, "=")
+	if !found || n != s.name {
+		return "", "err set-cookie-name " + esc(sc[0])
+	}
+	m := sp.minter()
+	e := entry{wire: v}
+	tok := v
+	if m.kind == "aes" {
+		plain, ok := openReal(m.key, v)
+		if !ok {
+			return "", "err set-cookie-does-not-open " + esc(v)
+		}
+		e.sealed = true
+		tok = "aes." + strconv.Itoa(m.key) + "." + esc(plain)
+	}
+	s.jar = append(s.jar, e)
+	return "v:" + esc(tok), ""
+}
+
 func (s *h) Op(f []string) string {
 	switch f[0] {
+	case "mint":
+		// a FOREIGN sticky session (another balancer's: other salt, other key, other codec) that lives next to the
+		// scenario's own one for the whole scenario hands out a cookie for <url>; the client puts it in its jar
+		if len(f) != 3 {
+			return "bad-op"
+		}
+		sp, rest, ok := parseSpec(f[1])
+		if !ok || rest != "" {
+			return "bad-op"
+		}
+		raw, ok := unesc(f[2])
+		if !ok {
+			return "err badurl"
+		}
+		u, err := url.Parse(raw)
+		if err != nil {
+			return "err badurl"
+		}
+		fs := s.foreign[f[1]]
+		if fs == nil {
+			fs = roundrobin.NewStickySession(s.name).SetCookieValue(sp.build())
+			if s.foreign == nil {
+				s.foreign = map[string]*roundrobin.StickySession{}
+			}
+			s.foreign[f[1]] = fs
+		}
+		rec := httptest.NewRecorder()
+		fs.StickBackend(u, rec)
+		set, errs := s.takeCookie(rec.Result().Header["Set-Cookie"], sp)
+		if errs != "" {
+			return errs
+		}
+		return "minted " + set + " " + esc(u.String()) + "," + esc(u.Scheme) + "|" + esc(u.Host) + "|" + esc(u.Path)
 	case "upsert", "remove":
 		if len(f) < 2 || len(f) > 3 || f[0] == "remove" && len(f) != 2 {
 			return "bad-op"
@@ -511,29 +576,9 @@ func (s *h) Op(f []string) string {
 			hdr = &l
 		}
 		served, rejected, sc := s.do(hdr)
-		set := "none"
-		if len(sc) > 1 {
-			return "err multiple-set-cookie"
-		}
-		if len(sc) == 1 {
-			pair, _, _ := strings.Cut(sc[0], ";")
-			n, v, found := strings.Cut(pair, "=")
-			if !found || n != s.name {
-				return "err set-cookie-name " + esc(sc[0])
-			}
-			m := s.cur.minter()
-			e := entry{wire: v}
-			tok := v
-			if m.kind == "aes" {
-				plain, ok := openReal(m.key, v)
-				if !ok {
-					return "err set-cookie-does-not-open " + esc(v)
-				}
-				e.sealed = true
-				tok = "aes." + strconv.Itoa(m.key) + "." + esc(plain)
-			}
-			s.jar = append(s.jar, e)
-			set = "v:" + esc(tok)
+		set, errs := s.takeCookie(sc, s.cur)
+		if errs != "" {
+			return errs
 		}
 		if rejected != "" {
 			return "rejected " + rejected + " set=" + set
